@@ -137,6 +137,10 @@ func cmdCheck(args []string) int {
 	}
 	p.seed = seed
 	p.curProp = *prop
+	budget := 150 * time.Second
+	if thorough {
+		budget = 900 * time.Second
+	}
 	var findings []KnownFinding
 	if b, err := os.ReadFile(*known); err == nil {
 		if err := json.Unmarshal(b, &findings); err != nil {
@@ -325,6 +329,7 @@ func cmdCheck(args []string) int {
 		}
 		exit = 2
 	}
+	p.replayDeadline = time.Now().Add(budget)
 	for _, o := range violations {
 		os.MkdirAll(replayDir, 0o755)
 		path := filepath.Join(replayDir, sanitize(o.Name)+".json")
